@@ -25,6 +25,26 @@ theorem key_routing (o : Oracle) (fuel : Nat) (s : St) (ev : Ev) (hev : Routable
     dispatch_conforms hev o fuel s.path (fun s => s.focused) .focusTgt (fun _ => rfl) s
   exact ⟨t, ht, hc⟩
 
+
+/-- **key_routing**, explicit form. If no handler answers with a focus command, the trace of
+`focusHandler.handleEvent` is literally: walk `route captures path focused` = capture calls
+(capturing widgets of `path`, root first) ++ [target call to the focused widget] ++ bubble calls
+(`path` without its last element, reversed); the k-th call overall is answered by `h … k`, its
+commands take effect once, in order, right after the call; the walk stops after the first call
+whose (flattened) answer contains `consume`. No hypothesis on the event, state or fuel. -/
+theorem key_routing_explicit (o : Oracle) (hnf : FocusFree o) (fuel : Nat) (s : St) (ev : Ev) :
+    (handleEvent o (fuel + 1) s ev).trace =
+      s.trace ++ specRun o.h ev s.calls (route o.captures s.path s.focused) :=
+  handleEvent_plain o hnf fuel s ev
+
+example : route (fun w => w == 1) [0, 1, 2] 2 =
+    [(1, .capture), (2, .target), (1, .bubble), (0, .bubble)] := by decide
+
+example :
+    callsOf (specRun (fun w _ ph _ => if w = 1 ∧ ph = .bubble then .batch [.redraw, .consume] else .nil) (.key 9) 0
+      (route (fun w => w == 1) [0, 1, 2] 2)) =
+    [(1, .key 9, .capture), (2, .key 9, .target), (1, .key 9, .bubble)] := by decide
+
 /-- Non-vacuity / sanity: a three-level path, the middle widget captures and the target
 consumes: capture 1, target 2, no bubbling. -/
 example :
@@ -283,5 +303,14 @@ theorem hover_alternates_distinct (o : Oracle) (fuel : Nat) (root : Id) (t0 : ST
 
 example : (ids (.node 0 9 9 [(1, 1, 0, .node 1 3 3 []), (0, 0, 1, .node 2 3 3 [(0, 0, 0, .node 3 1 1 [])])])).Nodup := by
   decide
+
+
+/-- Why the hover theorems need "each widget at most once under a point": a widget drawn inside
+its own surface is hit twice and gets MouseEnter twice in a row (observation, not part of the
+property's quantifier: trees there have distinct widgets). -/
+example :
+    hoverRun [] (runSteps ⟨fun _ _ _ _ => .nil, fun _ => false⟩ 4
+      (runInit ⟨fun _ _ _ _ => .nil, fun _ => false⟩ 4 0 (.node 0 9 9 [(0, 0, 0, .node 0 3 3 [])]))
+      [.ev (.mouse 1 1)]).trace = none := by decide
 
 end VaxisModel.Props.C15
